@@ -11,9 +11,10 @@
 
 namespace sim {
 
-template<bool Fancy, bool POCCA, bool POCMA, bool POCS, bool SOCCC_DEFAULT = false>
+template<bool Fancy, bool POCCA, bool POCMA, bool POCS, bool SOCCC_DEFAULT = false, bool DefaultInit = false>
 struct alloc_cfg {
 	static constexpr bool fancy = Fancy, pocca = POCCA, pocma = POCMA, pocs = POCS, soccc_default = SOCCC_DEFAULT;
+	static constexpr bool default_init = DefaultInit;  // the allocator has its own construct(): zero-argument construction default-initialises
 	template<class T> using ptr_t = std::conditional_t<Fancy, sim::ptr<T>, T*>;
 };
 using RawCfg   = alloc_cfg<false, false, false, false>;
@@ -52,6 +53,12 @@ struct allocator {
 	void deallocate(pointer p, size_type n) { W.deallocate(arena, raw_of(p), n, sizeof(T)); }
 
 	auto select_on_container_copy_construction() const -> allocator { return Cfg::soccc_default ? allocator{0} : *this; }
+
+	// the usual "default-init allocator" adaptor: construct(p) default-initialises instead of value-initialising
+	template<class U, class C = Cfg, std::enable_if_t<C::default_init, int> = 0>
+	void construct(U* p) { ::new(static_cast<void*>(p)) U; }
+	template<class U, class A0, class... As, class C = Cfg, std::enable_if_t<C::default_init, int> = 0>
+	void construct(U* p, A0&& a0, As&&... as) { ::new(static_cast<void*>(p)) U(std::forward<A0>(a0), std::forward<As>(as)...); }
 
 	friend bool operator==(allocator const& a, allocator const& b) { return a.arena == b.arena; }
 	friend bool operator!=(allocator const& a, allocator const& b) { return a.arena != b.arena; }
